@@ -21,7 +21,7 @@ reg("C04","recon","exploration","runtime oracle: ideal application of each real 
     L1+"each plan is applied ideally by the harness and reconciled again with the real code: the second plan must be empty and two-way endpoints must agree outside conflicts and unsynchronizable paths. Also the real controller through scripted endpoints (follow-up cycle must neither stage nor transition nor change the archive) and real sessions on disk (per-cycle re-reconciliation of the archive on disk against fresh scans).",
     "ideal application is performed by the harness (gen.Set) and by the real core.Apply for the ancestor")
 reg("C05","recon","fault_enumeration","enumeration of per-change transition outcomes composed through the real core.Apply",
-    "for plans with 1..3 changes every assignment of outcomes {nothing, each prefix-closed sub-tree of new, each prefix-closed sub-tree of current} is folded into the ancestor with the real Apply in controller order; it must succeed, validate, and record each reported result exactly. Also through the real controller (scripted endpoints): the archive loaded from disk must record exactly what each endpoint reported.",
+    "for plans with 1..3 changes every assignment of outcomes {nothing, each prefix-closed sub-tree of new, each prefix-closed sub-tree of current} is folded into the ancestor with the real Apply in controller order; it must succeed, validate, and record each reported result exactly. Also through the real controller (scripted endpoints): the archive loaded from disk must record exactly what each endpoint reported, including cycles halted by a real Pause while Transition is in flight (results returned only after the cancellation of the synchronize context was observed).",
     "composition order is copied from controller.synchronize; a reordering inside the controller itself is only visible to the controller-level (L2) monitor")
 reg("C06","recon","exploration","runtime oracle over real reconciliation plans (action disjointness, conflict well-formedness)",
     L1+"oracle: no two actions at equal or nested paths across alpha changes, beta changes and conflict roots; conflicts valid, two-sided, rooted at a first-disagreement path with inner changes beneath.",
@@ -44,13 +44,13 @@ reg("C15","ignore","exploration","reference-model comparison against a frozen co
     "frozen copy of patternmatcher.go (Apache-2.0) under internal/ignorex; pattern grammar restricted to what both sides define (no backslashes, comments)")
 
 reg("C08","fsops","exploration","disk re-observation after the real core.Transition with interference injected between scan and transition",
-    "random disk trees -> real core.Scan -> plan from the snapshot -> interference on planned paths (edit with unique token, same-size edit, chmod, new inode with equal size+mtime, link retarget, new child in a directory to be removed, file->directory, objects appearing at creation paths) -> real core.Transition; every interfered object must be exactly as the interference left it and a problem reported; non-interfered transitions must be carried out. Also as uid 65534. Also multi-scan sequences (stale cache entries), sub-second mtime changes, long link targets, temporary-named children, and the same cycle at the endpoint level with the poll watcher rescanning between Scan and Transition.",
+    "random disk trees -> real core.Scan -> plan from the snapshot -> interference on planned paths (edit with unique token, same-size edit, chmod, new inode with equal size+mtime, link retarget, new child in a directory to be removed, file->directory, objects appearing at creation paths) -> real core.Transition; every interfered object must be exactly as the interference left it and a problem reported; non-interfered transitions must be carried out. Also as uid 65534. Also multi-scan sequences (stale cache entries), sub-second mtime changes, long link targets, temporary-named children (the real temporary-name families of the code base: cross-device-rename, atomic-write, staging, probe files; top level and one level deeper), and the same cycle at the endpoint level with the poll watcher rescanning between Scan and Transition.",
     "interference during (not before) the transition - the check-then-act windows the repository documents - is not attacked")
 reg("C12","fsops","exploration","reference-model comparison: real core.Scan vs an independent lstat/readdir/readlink/sha1 walker",
-    "random trees (files, modes incl. group/other-only x bits, links of every portability class, FIFOs, non-UTF-8 names, temporary names, ignored names) x 3 symlink modes x 2 permissions modes x 2 probe modes; entries, digests, executability, link targets, untracked/problematic classification, four counters and the digest cache must agree; mode-000 content judged in an unprivileged child.",
+    "random trees (files, modes incl. group/other-only x bits, links of every portability class, FIFOs, non-UTF-8 names, temporary names, ignored names) x 3 symlink modes x 2 permissions modes x 2 probe modes; entries, digests, executability, link targets, untracked/problematic classification, four counters and the digest cache must agree; mode-000 content judged in an unprivileged child. Interrupted hashing: a counting hasher appends to / truncates the file in flight or cancels the scan at a seeded Write; the rest of that scan and the next scan with the same hasher must agree with the walker.",
     "ext4 preserves executability and does not decompose Unicode, so those two behaviours are observed with one value only")
 reg("C13","fsops","exploration","differential runtime comparison: accelerated real scans vs cold real scans over multi-step edit histories",
-    "histories of random edits (incl. single-attribute edits, kind changes, empty-directory swaps, renames); after each step the accelerated scan (previous accelerated state, recheck = changed paths) must be proto.Equal to a cold scan incl. counters; accelerated outputs feed the next step; both ignore syntaxes.",
+    "histories of random edits (incl. single-attribute edits, kind changes, empty-directory swaps, renames); after each step the accelerated scan (previous accelerated state, recheck = changed paths) must be proto.Equal to a cold scan incl. counters; accelerated outputs feed the next step; both ignore syntaxes. Root-only recheck sets ({\"\"}) on single-file roots and on directory roots (creations/deletions reported on the root, as fanotify does).",
     "precondition enforced by the harness: every content change alters inode, size or mtime (inode-reuse trap guarded); cold scans are tied to the independent walker by C12")
 reg("C17","fsops","exploration","inotify sensor on a canary tree outside the root + content re-observation",
     "roots with links into a watched canary tree and directories swapped for such links between scan and operation (also racing scans); operations: core.Scan (3 link modes), core.Transition plans crossing the link, rsync transmit and receive, local endpoint Stage/Transition; zero inotify events and unchanged canary required, crossing must be reported; control accesses prove the sensor is live.",
@@ -145,11 +145,11 @@ reg("C41","fsfault","exploration","reference comparison of the real local endpoi
     "roots with duplicates, renames/copies since the scan, pre-staged content: the returned paths are a subsequence of the request and a path is omitted iff already staged or available in the root by digest; with a maximum entry count no scan/stage/transition sequence exceeds it, the over-limit transition reports a problem and changes nothing; Stage or Transition twice without a Scan is refused.",
     "the disk-limit assertion applies only when nothing was edited since the last successful scan")
 reg("C42","fsfault","exploration","real local endpoint with force-poll watching: scans after transitions compared with the independent walker, Poll returns under a control-relative bound; race detector on",
-    "polling interval 1 s, accelerated scans: after every changing Transition the next Scan (immediately and at offsets across the polling tick) equals the walker's view of the quiescent disk; external edits and immediate reversals of a transition make Poll return within 2 intervals + control-relative slack.",
+    "polling interval 1 s, accelerated scans: after every changing Transition the next Scan (immediately and at offsets across the polling tick) equals the walker's view of the quiescent disk; external edits and immediate reversals of a transition make Poll return within 2 intervals + control-relative slack, also after a poll scan that failed (root temporarily a symbolic link).",
     "'eventually notices' restated as a bound relative to a heartbeat; unhealthy heartbeat = inconclusive")
 
 reg("C21","remote","exploration","differential runtime comparison: the same random endpoint program on a local endpoint and on client<->server over a fragmenting in-memory pipe; race detector on",
-    "mirrored roots; four real endpoints per program (local and remote alpha/beta, none/deflate compression, random valid configurations); steps: mirrored disk edits, Scan (walked/previous/foreign ancestors), Stage (incl. wrong digests, missing sources, empty requests, misuse), Supply, Transition planned with the real Reconcile (incl. stale plans); large-snapshot and root-kind programs: snapshots (proto.Equal incl. counters/flags), required paths, signatures, captured transmissions, results, problems (multiset), missing-files flag and error presence must be equal.",
+    "mirrored roots; four real endpoints per program (local and remote alpha/beta, none/deflate compression, random valid configurations); steps: mirrored disk edits, Scan (walked/previous/foreign ancestors), Stage (incl. wrong digests, missing sources, empty requests, misuse), Supply, Transition planned with the real Reconcile (incl. stale plans); large-snapshot and root-kind programs: snapshots (proto.Equal incl. counters/flags), required paths, signatures, captured transmissions, results, problems (multiset), missing-files flag and error presence must be equal. Acceleration probes: with force-poll watching and a 24 h interval the accelerated state is first observed (a regular scan must not see a fresh file), then full scans on both sides must see it and be equal.",
     "error values are compared for presence; texts after normalizing per-side root and session id; requests whose answer depends on Go map order are not issued; a FIFO at a staged path (blocks openat, outside this property) is avoided")
 reg("C22","remote","exploration","event-driven starvation oracle on a fragmenting pipe that knows when its reader is blocked; race detector on",
     "the writer/reader stacks are built exactly as the endpoints build them (encoder, bufio, compressor, bufio, multi-flusher), both algorithms, real protocol message types from empty to >= 1 MiB with random flush points: after each flush every written message must be decoded before the reader blocks on an empty pipe; decoded sequence equals written sequence; declared sizes above the limit are rejected without reading or allocating the body (liveness control: a legal 32 MiB prefix).",
